@@ -1,4 +1,5 @@
 import DswModel.Tie.GzViews
+import DswModel.Tie.GzScoreLib
 /-!
 # Translation tie — `calculate_intersection_score` (dsw/graphized.py)
 
@@ -6,14 +7,291 @@ import DswModel.Tie.GzViews
 function `Dsw.calculateIntersectionScore`: for every vertex of the latter map, the pairwise union sizes of the
 leaf sets of its successors (substitution), optionally the unions with the leaf sets two steps on (insertion)
 and with the vertex's own leaf set (deletion), accumulated into the `4^k × 4` score table.
+
+The lemmas on `union1d`, `combinations`, the score table and `enumerate` are in `GzScoreLib`.
 -/
 namespace Dsw.Tie
 open Dsw Dsw.Py
 
+namespace GzS
+
+abbrev SEnv := Gen.calculate_intersection_score.Env
+
+/-! ### the model, step by step -/
+
+/-- one pair of successors (substitution). -/
+def pstep (cur : Nat) (lat : List Nat) (mb : List (List Nat)) (sc : Array (Array Nat)) (ij : Nat × Nat) :
+    Array (Array Nat) :=
+  let s := unionCount (mb.getD ij.1 []) (mb.getD ij.2 [])
+  addScore (addScore sc cur (lat.getD ij.1 0 % 4) s) cur (lat.getD ij.2 0 % 4) s
+
+/-- one vertex two steps on (insertion). -/
+def wstep (m : LMap) (k cur : Nat) (mb : List (List Nat)) (fi : Nat × Nat) (sc : Array (Array Nat)) (w : Nat) :
+    Array (Array Nat) :=
+  addScore sc cur (fi.1 % 4) (unionCount (mb.getD fi.2 []) (leafMap m (k - 1) [w]))
+
+/-- one successor (insertion). -/
+def istep (m : LMap) (k cur : Nat) (mb : List (List Nat)) (sc : Array (Array Nat)) (fi : Nat × Nat) :
+    Array (Array Nat) :=
+  match m.get? fi.1 with
+  | Option.none => sc
+  | some ls => ls.foldl (wstep m k cur mb fi) sc
+
+/-- one successor (deletion). -/
+def dstep (cur : Nat) (mb : List (List Nat)) (db : List Nat) (sc : Array (Array Nat)) (fi : Nat × Nat) :
+    Array (Array Nat) :=
+  addScore sc cur (fi.1 % 4) (unionCount (mb.getD fi.2 []) db)
+
+def delPart (m : LMap) (k : Nat) (del : Bool) (cur : Nat) (lat : List Nat) (mb : List (List Nat))
+    (sc : Array (Array Nat)) : Array (Array Nat) :=
+  if del then lat.zipIdx.foldl (dstep cur mb (leafMap m (k - 1) [cur])) sc else sc
+
+def insPart (m : LMap) (k : Nat) (ins : Bool) (cur : Nat) (lat : List Nat) (mb : List (List Nat))
+    (sc : Array (Array Nat)) : Array (Array Nat) :=
+  if ins then lat.zipIdx.foldl (istep m k cur mb) sc else sc
+
+/-- one vertex of the latter map. -/
+def vstep (m : LMap) (k : Nat) (ins del : Bool) (sc : Array (Array Nat)) (p : Nat × List Nat) :
+    Array (Array Nat) :=
+  let mb := p.2.map fun w => leafMap m (k - 1) [w]
+  delPart m k del p.1 p.2 mb (insPart m k ins p.1 p.2 mb ((pairsBelow mb.length).foldl (pstep p.1 p.2 mb) sc))
+
+theorem calc_eq (m : LMap) (k : Nat) (ins del : Bool) :
+    calculateIntersectionScore m k ins del =
+      m.foldl (vstep m k ins del) (Array.replicate (4 ^ k) (Array.replicate 4 0)) := rfl
+
+/-! ### the relations -/
+
+/-- what the loop over the vertices keeps: the arguments, the constants, the score table. -/
+def Outer (m : LMap) (k : Nat) (ins del : Bool) (sc : Array (Array Nat)) (e : SEnv) : Prop :=
+  e.latter_map = lmapPV m ∧ e.depth = .int ((k : Int) - 1) ∧ e.nucleotides = .str ['A', 'C', 'G', 'T'] ∧
+    e.has_insertion = .bool ins ∧ e.has_deletion = .bool del ∧ e.scores = scoresPV sc ∧ ShapeS (4 ^ k) sc
+
+/-- … and, inside one vertex, the vertex and the leaf sets of its successors. -/
+def St (m : LMap) (k : Nat) (ins del : Bool) (cur : Nat) (mb : List (List Nat)) (sc : Array (Array Nat))
+    (e : SEnv) : Prop :=
+  Outer m k ins del sc e ∧ e.current_index = .int (cur : Int) ∧ e.mutate_branches = .list (mb.map idxArrPV)
+
+theorem mod4 (x : Nat) : x % 4 < 4 := Nat.mod_lt x (by decide)
+
+/-- a field of the new environment: untouched (the hypothesis) or just rewritten to its value (`rfl`). -/
+local macro "fld " h:term : tactic => `(tactic| first | rfl | exact $h)
+
+theorem exists_weaken {ε} {r : R (Flow ε)} {P Q : ε → Prop} (hPQ : ∀ e, P e → Q e)
+    (h : ∃ e', r = .ok (.norm e') ∧ P e') : ∃ e', r = .ok (.norm e') ∧ Q e' := by
+  obtain ⟨e', h1, h2⟩ := h
+  exact ⟨e', h1, hPQ e' h2⟩
+
+theorem foldl_append_map {α β} (f : α → β) (l : List α) (init : List β) :
+    l.foldl (fun acc x => acc ++ [f x]) init = init ++ l.map f := by
+  induction l generalizing init with
+  | nil => simp
+  | cons x xs ih => rw [List.foldl_cons, ih, List.map_cons, List.append_assoc]; rfl
+
+/-! ### `mutate_branches.append(obtain_leaf_vertices(…))` (`for2`) -/
+
+theorem for2_spec (m : LMap) (k : Nat) (ins del : Bool) (cur fuel w : Nat) (mb : List (List Nat))
+    (sc : Array (Array Nat)) (e : SEnv) (h : St m k ins del cur mb sc e) :
+    ∃ e', Gen.calculate_intersection_score.for2_body fuel (.int (w : Int)) e = .ok (.norm e') ∧
+      St m k ins del cur (mb ++ [leafMap m (k - 1) [w]]) sc e' := by
+  obtain ⟨⟨h1, h2, h3, h4, h5, h6, h7⟩, h8, h9⟩ := h
+  simp only [Gen.calculate_intersection_score.for2_body, h1, h2, leaf_call, bnd_ok, h9, pyAppend_list]
+  refine ⟨_, rfl, ⟨by fld h1, by fld h2, by fld h3, by fld h4, by fld h5, by fld h6, h7⟩, by fld h8, ?_⟩
+  simp only [List.map_append, List.map_cons, List.map_nil]
+
+/-! ### the pairs of successors (`for3`) -/
+
+theorem for3_spec {m : LMap} {k : Nat} (ins del : Bool) {cur : Nat} {lat : List Nat} {mb : List (List Nat)}
+    (hget : LMap.get? m cur = some lat) (hcur : cur < 4 ^ k) (hlen : mb.length = lat.length) (fuel : Nat)
+    (ij : Nat × Nat) (hij : ij.1 < mb.length ∧ ij.2 < mb.length) (sc : Array (Array Nat)) (e : SEnv)
+    (h : St m k ins del cur mb sc e) :
+    ∃ e', Gen.calculate_intersection_score.for3_body fuel (pairPV ij) e = .ok (.norm e') ∧
+      St m k ins del cur mb (pstep cur lat mb sc ij) e' := by
+  obtain ⟨⟨h1, h2, h3, h4, h5, h6, h7⟩, h8, h9⟩ := h
+  have e1 := GzV.pyIndex_lmapPV hget
+  have e2 := pyIndex_natsPV_getD (l := lat) (i := ij.1) (by omega)
+  have e3 := pyIndex_natsPV_getD (l := lat) (i := ij.2) (by omega)
+  have h7' := h7.addScore cur (lat.getD ij.1 0 % 4) (unionCount (mb.getD ij.1 []) (mb.getD ij.2 []))
+  have h7'' := h7'.addScore cur (lat.getD ij.2 0 % 4) (unionCount (mb.getD ij.1 []) (mb.getD ij.2 []))
+  simp only [Gen.calculate_intersection_score.for3_body, pairPV, pyUnpack_two_tup, bnd_ok, List.getD_cons_zero,
+    List.getD_cons_succ, h9, pyIndex_branches hij.1, pyIndex_branches hij.2, union_len, h1, h8, e1, e2, e3, h3,
+    pyLen_ACGT4, pyMod_nat_four, h6, npIndex2_scoresPV h7 hcur (mod4 _), npAdd_nat,
+    npSetItem2_scoresPV h7 hcur (mod4 _), npIndex2_scoresPV h7' hcur (mod4 _),
+    npSetItem2_scoresPV h7' hcur (mod4 _)]
+  exact ⟨_, rfl, ⟨by fld h1, by fld h2, by fld h3, by fld h4, by fld h5, rfl, h7''⟩, by fld h8, by fld h9⟩
+
+/-! ### insertion (`for5`, `for4`) -/
+
+theorem for5_spec {m : LMap} {k : Nat} (ins del : Bool) {cur : Nat} {lat : List Nat} {mb : List (List Nat)}
+    (hget : LMap.get? m cur = some lat) (hcur : cur < 4 ^ k) (hlen : mb.length = lat.length) (fuel : Nat)
+    (fi : Nat × Nat) (hfi : fi.2 < lat.length ∧ lat.getD fi.2 0 = fi.1) (w : Nat) (sc : Array (Array Nat))
+    (e : SEnv) (h : St m k ins del cur mb sc e ∧ e.index = .int (fi.2 : Int)) :
+    ∃ e', Gen.calculate_intersection_score.for5_body fuel (.int (w : Int)) e = .ok (.norm e') ∧
+      (St m k ins del cur mb (wstep m k cur mb fi sc w) e' ∧ e'.index = .int (fi.2 : Int)) := by
+  obtain ⟨⟨⟨h1, h2, h3, h4, h5, h6, h7⟩, h8, h9⟩, h10⟩ := h
+  have e1 := GzV.pyIndex_lmapPV hget
+  have e2 := pyIndex_natsPV_getD (l := lat) (i := fi.2) hfi.1
+  rw [hfi.2] at e2
+  have h7' := h7.addScore cur (fi.1 % 4) (unionCount (mb.getD fi.2 []) (leafMap m (k - 1) [w]))
+  simp only [Gen.calculate_intersection_score.for5_body, h1, h2, leaf_call, bnd_ok, h9, h10,
+    pyIndex_branches (mb := mb) (i := fi.2) (by omega), union_len, h8, e1, e2, h3, pyLen_ACGT4, pyMod_nat_four, h6,
+    npIndex2_scoresPV h7 hcur (mod4 _), npAdd_nat, npSetItem2_scoresPV h7 hcur (mod4 _)]
+  exact ⟨_, rfl, ⟨⟨by fld h1, by fld h2, by fld h3, by fld h4, by fld h5, rfl, h7'⟩, by fld h8, by fld h9⟩,
+    by fld h10⟩
+
+theorem for4_spec {m : LMap} {k : Nat} (ins del : Bool) {cur : Nat} {lat : List Nat} {mb : List (List Nat)}
+    (hget : LMap.get? m cur = some lat) (hcur : cur < 4 ^ k) (hlen : mb.length = lat.length) (fuel : Nat)
+    (fi : Nat × Nat) (hfi : fi ∈ lat.zipIdx) (sc : Array (Array Nat)) (e : SEnv)
+    (h : St m k ins del cur mb sc e) :
+    ∃ e', Gen.calculate_intersection_score.for4_body fuel (.tup [.int (fi.2 : Int), .int (fi.1 : Int)]) e =
+        .ok (.norm e') ∧ St m k ins del cur mb (istep m k cur mb sc fi) e' := by
+  have h' := h
+  obtain ⟨⟨h1, h2, h3, h4, h5, h6, h7⟩, h8, h9⟩ := h
+  simp only [Gen.calculate_intersection_score.for4_body, pyUnpack_two_tup, bnd_ok, List.getD_cons_zero,
+    List.getD_cons_succ, h1, GzV.pyIn_lmapPV, istep]
+  cases hg : LMap.get? m fi.1 with
+  | none =>
+    simp only [Option.isSome_none, Bool.false_eq_true, ↓reduceIte]
+    exact ⟨_, rfl, ⟨by fld h1, by fld h2, by fld h3, by fld h4, by fld h5, by fld h6, h7⟩, by fld h8, by fld h9⟩
+  | some ls =>
+    simp only [Option.isSome_some, ↓reduceIte, GzV.pyIndex_lmapPV hg, bnd_ok, pyIter_natsPV]
+    refine exists_weaken (P := fun e => St m k ins del cur mb (ls.foldl (wstep m k cur mb fi) sc) e ∧
+      e.index = .int (fi.2 : Int)) (fun e h => h.1) ?_
+    exact forLoop_rel_map
+      (fun sc (e : SEnv) => St m k ins del cur mb sc e ∧ e.index = .int (fi.2 : Int)) (wstep m k cur mb fi)
+      (fun (n : Nat) => PV.int (n : Int))
+      (fun w _ st e he => for5_spec ins del hget hcur hlen fuel fi (mem_zipIdx' hfi) w st e he)
+      ⟨⟨⟨by fld h1, by fld h2, by fld h3, by fld h4, by fld h5, by fld h6, h7⟩, by fld h8, by fld h9⟩, rfl⟩
+
+/-! ### deletion (`for6`) -/
+
+theorem for6_spec {m : LMap} {k : Nat} (ins del : Bool) {cur : Nat} {lat : List Nat} {mb : List (List Nat)}
+    (hget : LMap.get? m cur = some lat) (hcur : cur < 4 ^ k) (hlen : mb.length = lat.length) (fuel : Nat)
+    (db : List Nat) (fi : Nat × Nat) (hfi : fi ∈ lat.zipIdx) (sc : Array (Array Nat)) (e : SEnv)
+    (h : St m k ins del cur mb sc e ∧ e.delete_branch = .list [idxArrPV db]) :
+    ∃ e', Gen.calculate_intersection_score.for6_body fuel (.int (fi.2 : Int)) e = .ok (.norm e') ∧
+      (St m k ins del cur mb (dstep cur mb db sc fi) e' ∧ e'.delete_branch = .list [idxArrPV db]) := by
+  obtain ⟨⟨⟨h1, h2, h3, h4, h5, h6, h7⟩, h8, h9⟩, h10⟩ := h
+  obtain ⟨hf1, hf2⟩ := mem_zipIdx' hfi
+  have e1 := GzV.pyIndex_lmapPV hget
+  have e2 := pyIndex_natsPV_getD (l := lat) (i := fi.2) hf1
+  rw [hf2] at e2
+  have h7' := h7.addScore cur (fi.1 % 4) (unionCount (mb.getD fi.2 []) db)
+  simp only [Gen.calculate_intersection_score.for6_body, h1, bnd_ok, h9, h10,
+    pyIndex_branches (mb := mb) (i := fi.2) (by omega), union_len_list, h8, e1, e2, h3, pyLen_ACGT4,
+    pyMod_nat_four, h6, npIndex2_scoresPV h7 hcur (mod4 _), npAdd_nat, npSetItem2_scoresPV h7 hcur (mod4 _)]
+  exact ⟨_, rfl, ⟨⟨by fld h1, by fld h2, by fld h3, by fld h4, by fld h5, rfl, h7'⟩, by fld h8, by fld h9⟩,
+    by fld h10⟩
+
+/-! ### the rest of one vertex (`k3`, `k4`, `k5`) -/
+
+theorem k2_spec (fuel : Nat) (e : SEnv) : Gen.calculate_intersection_score.k2 fuel e = .ok (.norm e) := by
+  simp only [Gen.calculate_intersection_score.k2, bnd_ok, ite_self]
+
+theorem k3_spec {m : LMap} {k : Nat} (ins del : Bool) {cur : Nat} {lat : List Nat} {mb : List (List Nat)}
+    (hget : LMap.get? m cur = some lat) (hcur : cur < 4 ^ k) (hlen : mb.length = lat.length) (fuel : Nat)
+    (sc : Array (Array Nat)) (e : SEnv) (h : St m k ins del cur mb sc e) :
+    ∃ e', Gen.calculate_intersection_score.k3 fuel e = .ok (.norm e') ∧
+      Outer m k ins del (delPart m k del cur lat mb sc) e' := by
+  have h' := h
+  obtain ⟨⟨h1, h2, h3, h4, h5, h6, h7⟩, h8, h9⟩ := h
+  simp only [Gen.calculate_intersection_score.k3, h5, truthy_bool, bnd_ok, delPart]
+  cases del with
+  | false =>
+    simp only [Bool.false_eq_true, ↓reduceIte, seq_norm, k2_spec]
+    exact ⟨_, rfl, h1, h2, h3, h4, h5, h6, h7⟩
+  | true =>
+    simp only [↓reduceIte, h1, h2, h8, leaf_call, bnd_ok, h9, pyLen_list, List.length_map, hlen, pyRange1_nat,
+      pyIter_list, range_eq_zipIdx]
+    refine GzV.seq_exists (Outer m k ins true (lat.zipIdx.foldl (dstep cur mb (leafMap m (k - 1) [cur])) sc)) _ ?_
+      (fun e1 g => ⟨e1, k2_spec fuel e1, g⟩)
+    refine GzV.seq_exists (fun e => St m k ins true cur mb
+        (lat.zipIdx.foldl (dstep cur mb (leafMap m (k - 1) [cur])) sc) e ∧
+        e.delete_branch = .list [idxArrPV (leafMap m (k - 1) [cur])]) _ ?_ ?_
+    · exact forLoop_rel_map
+        (fun sc (e : SEnv) => St m k ins true cur mb sc e ∧
+          e.delete_branch = .list [idxArrPV (leafMap m (k - 1) [cur])])
+        (dstep cur mb (leafMap m (k - 1) [cur])) (fun (fi : Nat × Nat) => PV.int (fi.2 : Int))
+        (fun fi hfi st e he => for6_spec ins true hget hcur hlen fuel _ fi hfi st e he)
+        ⟨⟨⟨by fld h1, by fld h2, by fld h3, by fld h4, by fld h5, by fld h6, h7⟩, by fld h8, by fld h9⟩, rfl⟩
+    · intro e1 g
+      obtain ⟨⟨g1, _, _⟩, _⟩ := g
+      exact ⟨_, rfl, g1⟩
+
+theorem k4_spec {m : LMap} {k : Nat} (ins del : Bool) {cur : Nat} {lat : List Nat} {mb : List (List Nat)}
+    (hget : LMap.get? m cur = some lat) (hcur : cur < 4 ^ k) (hlen : mb.length = lat.length) (fuel : Nat)
+    (sc : Array (Array Nat)) (e : SEnv) (h : St m k ins del cur mb sc e) :
+    ∃ e', Gen.calculate_intersection_score.k4 fuel e = .ok (.norm e') ∧
+      Outer m k ins del (delPart m k del cur lat mb (insPart m k ins cur lat mb sc)) e' := by
+  have h' := h
+  obtain ⟨⟨h1, h2, h3, h4, h5, h6, h7⟩, h8, h9⟩ := h
+  simp only [Gen.calculate_intersection_score.k4, h4, truthy_bool, bnd_ok, insPart]
+  cases ins with
+  | false =>
+    simp only [Bool.false_eq_true, ↓reduceIte, seq_norm]
+    exact k3_spec false del hget hcur hlen fuel sc e h'
+  | true =>
+    simp only [↓reduceIte, h1, h8, GzV.pyIndex_lmapPV hget, bnd_ok, pyEnumerate_natsPV, pyIter_list, enumFrom_nats]
+    refine GzV.seq_exists (St m k true del cur mb (lat.zipIdx.foldl (istep m k cur mb) sc)) _ ?_
+      (fun e1 g => k3_spec true del hget hcur hlen fuel _ e1 g)
+    exact forLoop_rel_map (St m k true del cur mb) (istep m k cur mb)
+      (fun (fi : Nat × Nat) => PV.tup [.int (fi.2 : Int), .int (fi.1 : Int)])
+      (fun fi hfi st e he => for4_spec true del hget hcur hlen fuel fi hfi st e he) h'
+
+theorem k5_spec {m : LMap} {k : Nat} (ins del : Bool) {cur : Nat} {lat : List Nat} {mb : List (List Nat)}
+    (hget : LMap.get? m cur = some lat) (hcur : cur < 4 ^ k) (hlen : mb.length = lat.length) (fuel : Nat)
+    (sc : Array (Array Nat)) (e : SEnv) (h : St m k ins del cur mb sc e) :
+    ∃ e', Gen.calculate_intersection_score.k5 fuel e = .ok (.norm e') ∧
+      Outer m k ins del (delPart m k del cur lat mb (insPart m k ins cur lat mb
+        ((pairsBelow mb.length).foldl (pstep cur lat mb) sc))) e' := by
+  have h' := h
+  obtain ⟨⟨h1, h2, h3, h4, h5, h6, h7⟩, h8, h9⟩ := h
+  simp only [Gen.calculate_intersection_score.k5, h9, pyLen_list, List.length_map, bnd_ok]
+  rw [combinations_range]
+  simp only [bnd_ok, pyIter_list]
+  refine GzV.seq_exists (St m k ins del cur mb ((pairsBelow mb.length).foldl (pstep cur lat mb) sc)) _ ?_
+    (fun e1 g => k4_spec ins del hget hcur hlen fuel _ e1 g)
+  exact forLoop_rel_map (St m k ins del cur mb) (pstep cur lat mb) pairPV
+    (fun ij hij st e he => for3_spec ins del hget hcur hlen fuel ij (mem_pairsBelow hij) st e he) h'
+
+/-! ### one vertex (`for1`) -/
+
+theorem for1_spec {m : LMap} {k : Nat} (ins del : Bool) (hm : LMap.KeysNodup m) (hk : ∀ p ∈ m, p.1 < 4 ^ k)
+    (fuel i : Nat) (p : Nat × List Nat) (hp : p ∈ m) (sc : Array (Array Nat)) (e : SEnv)
+    (h : Outer m k ins del sc e) :
+    ∃ e', Gen.calculate_intersection_score.for1_body fuel (.tup [.int (i : Int), .int (p.1 : Int)]) e =
+        .ok (.norm e') ∧ Outer m k ins del (vstep m k ins del sc p) e' := by
+  have hget := get?_of_mem hm hp
+  obtain ⟨h1, h2, h3, h4, h5, h6, h7⟩ := h
+  simp only [Gen.calculate_intersection_score.for1_body, pyUnpack_two_tup, bnd_ok, List.getD_cons_zero,
+    List.getD_cons_succ, h1, GzV.pyIndex_lmapPV hget, pyIter_natsPV, vstep]
+  have hconv : p.2.foldl (fun mb (w : Nat) => mb ++ [leafMap m (k - 1) [w]]) [] =
+      p.2.map fun w => leafMap m (k - 1) [w] := by
+    rw [foldl_append_map (fun w => leafMap m (k - 1) [w]), List.nil_append]
+  refine GzV.seq_exists
+    (St m k ins del p.1 (p.2.foldl (fun mb (w : Nat) => mb ++ [leafMap m (k - 1) [w]]) []) sc) _ ?_
+    (fun e1 g => k5_spec ins del hget (hk p hp) (by simp) fuel sc e1 (hconv ▸ g))
+  exact forLoop_rel_map (fun mb (e : SEnv) => St m k ins del p.1 mb sc e)
+    (fun mb (w : Nat) => mb ++ [leafMap m (k - 1) [w]]) (fun (n : Nat) => PV.int (n : Int))
+    (fun w _ st e he => for2_spec m k ins del p.1 fuel w st sc e he)
+    ⟨⟨by fld h1, by fld h2, by fld h3, by fld h4, by fld h5, by fld h6, h7⟩, rfl, rfl⟩
+
+end GzS
+
+open GzS in
 theorem tie_calculate_intersection_score (m : LMap) (k fuel : Nat) (ins del verbose : Bool)
     (hm : LMap.KeysNodup m) (hk : ∀ p ∈ m, p.1 < 4 ^ k) :
     Gen.calculate_intersection_score fuel (lmapPV m) (.int (k : Int)) (.bool ins) (.bool del) (.bool verbose) =
       .ok (scoresPV (calculateIntersectionScore m k ins del)) := by
-  sorry
+  rw [calc_eq]
+  simp only [Gen.calculate_intersection_score, Gen.calculate_intersection_score.body, keys_expr, bnd_ok,
+    npSub_int, pyLen_ACGT4, pyPow_four_nat, npZeros2_scores, pyEnumerate_list, pyIter_list]
+  apply callResult_seq_of_norm (Outer m k ins del
+    (m.foldl (vstep m k ins del) (Array.replicate (4 ^ k) (Array.replicate 4 0))))
+  · exact forLoop_rel_enum (Outer m k ins del) (vstep m k ins del) (fun p => PV.int (p.1 : Int)) 0
+      (fun i p hp st e he => for1_spec ins del hm hk fuel i p hp st e he)
+      ⟨rfl, rfl, rfl, rfl, rfl, rfl, ShapeS_init _⟩
+  · intro e' h
+    simp only [Gen.calculate_intersection_score.k6, h.2.2.2.2.2.1, callResult_ret]
 
 end Dsw.Tie
